@@ -793,8 +793,76 @@ func TestC01(t *testing.T) {
 			run.Sample(map[string]any{"cfg": cfg.String(), "claims": seq[:min(6, len(seq))]})
 		}
 	}
+	for k, carrier := range []string{"packet", "pp"} {
+		id := "port-mapping/" + carrier
+		if !run.Mine(k+2) || !run.Want(id) {
+			continue
+		}
+		run.Journal(id, "")
+		var res []*c01Result
+		err := Bubble(t, func() { res = runC01PortMap(run, run.Seed()*89+int64(k), carrier) })
+		if err != nil {
+			res = append(res, &c01Result{"C01/bubble", err.Error()})
+		}
+		for _, r := range res {
+			run.Violation(id, r.Key, r.What, nil)
+		}
+	}
 	run.Complete()
 	if run.Violations() > 0 {
 		t.Errorf("%d violation(s)", run.Violations())
 	}
+}
+
+// runC01PortMap: the node listens on one port and advertises another (a port mapping in front of it). Claims that
+// carry no port mean the default port - the node's configured bind port. A member known at that port explicitly
+// leaves; an older port-less claim from the same address is then old news and must change nothing.
+func runC01PortMap(run *Run, seed int64, carrier string) (out []*c01Result) {
+	fail := func(key, f string, a ...any) {
+		out = append(out, &c01Result{"C01/" + key, fmt.Sprintf(f, a...)})
+	}
+	rig, err := NewRig(RigOpts{Seed: seed, Spec: NodeSpec{Name: "V", IP: "10.9.9.9", Mutate: func(cf *memberlist.Config) {
+		cf.ProbeInterval = noProbe
+		cf.PushPullInterval = 0
+		cf.BindPort = 7000 // the endpoint (what is advertised) stays on 7946
+		cf.DeadNodeReclaimTime = 5 * time.Second
+	}}})
+	if err != nil {
+		fail("harness/create", "%v", err)
+		return
+	}
+	defer rig.Close()
+	x := rig.AddPeer("x", "10.9.1.1", 7946)
+	rig.Introduce(x, 1)
+	Settle(time.Millisecond)
+	addr := []byte{10, 9, 0, 7}
+	send := func(msg []byte, st WPushNodeState) {
+		switch carrier {
+		case "packet":
+			x.Send(msg)
+		case "pp":
+			_, _, _ = x.PushPull(false, []WPushNodeState{x.Self(1), st}, nil)
+		}
+		Settle(time.Millisecond)
+	}
+	send(Enc(TAlive, &WAlive{Incarnation: 5, Node: "pm", Addr: addr, Port: 7000, Meta: []byte("m1"), Vsn: DefaultVsn()}),
+		WPushNodeState{Name: "pm", Addr: addr, Port: 7000, Incarnation: 5, State: SAlive, Meta: []byte("m1"), Vsn: DefaultVsn()})
+	x.Send(Enc(TDead, &WDead{Incarnation: 5, Node: "pm", From: "pm"}))
+	Settle(time.Millisecond)
+	before := rig.V.Record("pm")
+	if before == nil || before.State != memberlist.StateLeft || before.Port != 7000 {
+		fail("harness/portmap", "set-up failed: %s", recString(before))
+		return
+	}
+	evB := len(rig.V.Ev.Log())
+	// old news without a port: incarnation 3 < 5, same address, default port
+	send(Enc(TAlive, &WAlive{Incarnation: 3, Node: "pm", Addr: addr, Port: 0, Meta: []byte("m0"), Vsn: DefaultVsn()}),
+		WPushNodeState{Name: "pm", Addr: addr, Port: 0, Incarnation: 3, State: SAlive, Meta: []byte("m0"), Vsn: DefaultVsn()})
+	after := rig.V.Record("pm")
+	run.Eval(1)
+	run.Cell("port-mapping", carrier)
+	if after == nil || after.State != before.State || after.Incarnation != before.Incarnation || after.Port != before.Port || len(rig.V.Ev.Log()) != evB {
+		fail("stale/record-changed/portless-alive-on-left", "the node binds port 7000 and advertises 7946; a member known at port 7000 left at incarnation 5; an older alive claim (incarnation 3) from the same address that carries no port (= the default port) changed it: before [%s] after [%s], %d new event(s) [via %s]", recString(before), recString(after), len(rig.V.Ev.Log())-evB, carrier)
+	}
+	return
 }
